@@ -256,6 +256,32 @@ LAZY_BUILTINS = [
     ("local arr = std.makeArray(1, function(i) std.trace('once', 7)); arr[0] + arr[0]", 14.0),
     ("local o = std.mapWithKey(function(k, v) std.trace('once', v), {a: 2}); o.a + o.a", 4.0),
     ("std.sort([3, 1, 2], function(x) std.trace('key' + x, x))", [1.0, 2.0, 3.0]),
+    ("std.foldl(function(acc, x) x, [1, 2], error 'dead init')", 2.0),
+    ("std.foldl(function(acc, x) if x == 1 then x else acc + x, [1, 2, 3], error 'dead init')", 6.0),
+    ("std.foldr(function(x, acc) x, [1, 2], error 'dead init')", 1.0),
+    ("std.foldl(function(acc, x) acc + x, [], 5)", 5.0),
+    ("std.all([false, error 'dead'])", False),
+    ("std.any([true, error 'dead'])", True),
+    ("std.removeAt([error 'dead', 1], 0)", [1.0]),
+    ("std.objectKeysValues({a: error 'dead'})[0].key", "a"),
+    ("std.length(std.objectValuesAll({a:: error 'dead'}))", 1.0),
+    ("std.length(std.filter(function(x) true, [error 'dead']))", 1.0),
+    ("std.mapWithIndex(function(i, x) i, [error 'dead'])", [0.0]),
+    ("std.flatMap(function(x) [1], [error 'dead'])", [1.0]),
+    ("std.length(std.flattenArrays([[error 'dead']]))", 1.0),
+    ("std.length(std.join([0], [[error 'dead'], [1]]))", 3.0),
+    ("std.mapWithKey(function(k, v) k, {a: error 'dead'})", {"a": "a"}),
+    ("std.minArray([2, 1], function(x) x, error 'dead onEmpty')", 1.0),
+    ("std.maxArray([], function(x) x, 7)", 7.0),
+    ("std.length(std.reverse([error 'a', error 'b']))", 2.0),
+    ("std.objectHasAll({a:: error 'dead'}, 'a')", True),
+    ("local f = function(a=std.trace('once', 1), b=a) a + b; f()", 2.0),
+    ("local f(a=std.trace('once', 1), b=a + 1, c=0) = a + b + c; f(c=100)", 103.0),
+    ("local f(a, b=std.trace('once', a)) = b + b; f(2)", 4.0),
+    ("{local l = std.trace('once', 1), a: l, b: l}", {"a": 1.0, "b": 1.0}),
+    ("local o = {a: std.trace('once', 1)}; [o.a, (o + {}).a == 1, o.a]", None),
+    ("[std.trace('once', 1) for x in [0]][0] + 0", 1.0),
+    ("local a = [std.trace('once', 1)]; [x for x in a] + a", [1.0, 1.0]),
 ]
 
 
@@ -267,6 +293,9 @@ def builtins_shard(args):
         for src, exp in LAZY_BUILTINS:
             r = ev.run(src, walk=1)
             agg.nontrivial.add(common.h64(src))
+            if exp is None:
+                agg.count("lazy_builtin_cases")
+                continue        # (re-extended objects legitimately re-evaluate: only recorded)
             if r.cls != "value" or not same_value(r.value, exp, strict_zero=False):
                 agg.violation({"kind": "lazy_builtin", "src": src[:70]}, {"src": src, "expected": repr(exp), "got": r.brief()},
                               {"script": r.lines})
